@@ -136,4 +136,120 @@ theorem C07_partial_head_served (s : St) (i : Nat) (hi : i < s.clients.length)
   rw [getClient_modClient]
   simp [hi, hc, h2, hp, hs, startHandler, hperm]
 
+/-! ## For every continuation -/
+
+theorem foldl_ended (ops : List Op) (s : St) (h : s.srv ≠ .pending) : (ops.foldl step s).srv = s.srv := by
+  induction ops generalizing s with
+  | nil => rfl
+  | cons op ops ih =>
+    simp only [List.foldl_cons]
+    have h1 := C07_ended_stays s op h
+    rw [ih (step s op) (by rw [h1]; exact h), h1]
+
+/-- **C07 (completed for good).** From the shutdown signal on, whatever happens afterwards – connects,
+    bytes, handler completions, disconnects, loss of the listener, in any order and number – the
+    serving future has completed successfully and stays so. -/
+theorem C07_completed_for_good (s : St) (ops : List Op) (hg : s.cfg.graceful = true) (hp : s.srv = .pending)
+    (hn : s.signalled = false) : (ops.foldl step (step s .signal)).srv = .ok := by
+  have h1 := C07_signal_completes s hg hp hn
+  rw [foldl_ended ops _ (by rw [h1.1]; decide), h1.1]
+
+/-- a client the server never accepted: nothing of it was ever handled -/
+def Unserved (c : Client) : Prop :=
+  c.st ≠ .opened ∧ c.hc = 0 ∧ c.resp = 0 ∧ c.inHandler = false ∧ c.srvOpen = false ∧ c.queued = 0
+
+theorem gracefulConn_unserved (c : Client) (h : Unserved c) : gracefulConn c = c := by
+  unfold gracefulConn; simp [h.2.2.2.2.1]
+
+theorem unserved_stepBasic (s : St) (op : Op) (i : Nat) (hs : s.srv ≠ .pending) (h : Unserved (getClient s i)) :
+    Unserved (getClient (stepBasic s op) i) := by
+  have hs' : (s.srv != .pending) = true := by simpa using hs
+  obtain ⟨h1, h2, h3, h4, h5, h6⟩ := h
+  cases op with
+  | conn j =>
+    simp only [stepBasic]
+    split
+    · exact ⟨h1, h2, h3, h4, h5, h6⟩
+    · simp only [hs', Bool.true_or, if_true]
+      rw [getClient_modClient]
+      split
+      · exact ⟨by simp, h2, h3, h4, h5, h6⟩
+      · exact ⟨h1, h2, h3, h4, h5, h6⟩
+  | connx j => exact ⟨h1, h2, h3, h4, h5, h6⟩
+  | send j k =>
+    simp only [stepBasic]
+    split
+    · exact ⟨h1, h2, h3, h4, h5, h6⟩
+    · rename_i hcond
+      rw [getClient_modClient]
+      split
+      · rename_i hij
+        obtain ⟨rfl, _⟩ := hij
+        simp only [Bool.or_eq_true, bne_iff_ne, ne_eq, Bool.not_eq_true', not_or, Decidable.not_not, Bool.not_eq_false] at hcond
+        exact absurd hcond.1 h1
+      · exact ⟨h1, h2, h3, h4, h5, h6⟩
+  | gate j =>
+    simp only [stepBasic]
+    rw [getClient_modClient]
+    split
+    · simp only [h4, Bool.false_eq_true, if_false]
+      exact ⟨h1, h2, h3, by first | rfl | exact h4, h5, h6⟩
+    · exact ⟨h1, h2, h3, h4, h5, h6⟩
+  | close j =>
+    simp only [stepBasic]
+    rw [getClient_modClient]
+    split
+    · split
+      · rename_i ho; exact absurd (by simpa using ho) h1
+      · exact ⟨h1, h2, h3, h4, h5, h6⟩
+    · exact ⟨h1, h2, h3, h4, h5, h6⟩
+  | signal =>
+    simp only [stepBasic]
+    split
+    · exact ⟨h1, h2, h3, h4, h5, h6⟩
+    · have hq : (s.srv == Srv.pending) = false := by simpa using hs
+      simp only [hq, Bool.and_false, Bool.false_eq_true, if_false]
+      exact ⟨h1, h2, h3, h4, h5, h6⟩
+  | dropListener =>
+    simp only [stepBasic]
+    split
+    · rename_i hc; exact absurd (by simpa using hc) hs
+    · exact ⟨h1, h2, h3, h4, h5, h6⟩
+  | sigConn j => exact ⟨h1, h2, h3, h4, h5, h6⟩
+  | sigDrop => exact ⟨h1, h2, h3, h4, h5, h6⟩
+
+theorem unserved_step (s : St) (op : Op) (i : Nat) (hs : s.srv ≠ .pending) (h : Unserved (getClient s i)) :
+    Unserved (getClient (step s op) i) := by
+  cases op with
+  | sigConn j =>
+    show Unserved (getClient (stepBasic (stepBasic s .signal) (.conn j)) i)
+    exact unserved_stepBasic _ _ i (by rw [C07_ended_stays_basic s .signal hs]; exact hs) (unserved_stepBasic s .signal i hs h)
+  | sigDrop =>
+    show Unserved (getClient (stepBasic (stepBasic s .signal) .dropListener) i)
+    exact unserved_stepBasic _ _ i (by rw [C07_ended_stays_basic s .signal hs]; exact hs) (unserved_stepBasic s .signal i hs h)
+  | conn j => exact unserved_stepBasic s _ i hs h
+  | connx j => exact unserved_stepBasic s _ i hs h
+  | send j k => exact unserved_stepBasic s _ i hs h
+  | gate j => exact unserved_stepBasic s _ i hs h
+  | close j => exact unserved_stepBasic s _ i hs h
+  | signal => exact unserved_stepBasic s _ i hs h
+  | dropListener => exact unserved_stepBasic s _ i hs h
+
+/-- **C07 (nothing new is served).** A client that had not been accepted when the serving future ended
+    is never served, whatever it and everybody else do afterwards: no handler call, no response. -/
+theorem C07_never_served_after (s : St) (ops : List Op) (i : Nat) (hs : s.srv ≠ .pending)
+    (h : Unserved (getClient s i)) :
+    (getClient (ops.foldl step s) i).hc = 0 ∧ (getClient (ops.foldl step s) i).resp = 0 ∧
+      (getClient (ops.foldl step s) i).st ≠ .opened := by
+  have key : ∀ (ops : List Op) (s : St), s.srv ≠ .pending → Unserved (getClient s i) → Unserved (getClient (ops.foldl step s) i) := by
+    intro ops
+    induction ops with
+    | nil => intro s _ h; exact h
+    | cons op ops ih =>
+      intro s hs h
+      simp only [List.foldl_cons]
+      exact ih _ (by rw [C07_ended_stays s op hs]; exact hs) (unserved_step s op i hs h)
+  obtain ⟨a, b, c, _⟩ := key ops s hs h
+  exact ⟨b, c, a⟩
+
 end Hd.Server
